@@ -483,7 +483,7 @@ def cg_sweep(ctx, pym):
             if stor != 'dense':
                 pcs += [('SOR', lambda: S.SOR(w=rng.choice([0.8, 1.0, 1.3]))), ('ILU', lambda: S.ILU())]
             for pl, pc in pcs:
-                solver = S.CG(As, preconditioner=pc(), tol=tol, restart=rng.choice([1, 3, 50]))
+                solver = S.CG(As, preconditioner=pc(), tol=tol, maxit=1000, restart=rng.choice([1, 3, 50]))
                 for t in 'NTH':
                     kind = rng.choice(['vec', 'col', 'blk', 'dup', 'wide'])
                     b = rhs(n, kind, cplx)
@@ -509,7 +509,7 @@ def cg_sweep(ctx, pym):
         for cyc in ('V', 'W'):
             for pl, pc in (('GeometricMultigrid', lambda: S.GeometricMultigrid(dom, cycle=cyc)),
                            ('GeometricMultigrid+SOR', lambda: S.GeometricMultigrid(dom, cycle=cyc, smoother=S.SOR(w=1.0), smooth_steps=2))):
-                solver = S.CG(K, preconditioner=pc(), tol=tol)
+                solver = S.CG(K, preconditioner=pc(), tol=tol, maxit=1000)
                 for t in 'NTH':
                     kb = rng.choice([1, 2])
                     b = np.array([[rng.randint(-5, 5) for _ in range(kb)] for _ in range(n)], dtype=float)
